@@ -20,11 +20,28 @@ Fixpoint cat_map {A} (f : A -> string) (l : list A) : string :=
 
 (* ------------------------------------------------------------------ *)
 (* implementation side *)
+(* The driver also evaluates consistency flags on the real objects (each must be 1):
+   input:  Some(false) = None for get_prev_tx_id / get_outpoint_bytes; every *_hex getter and to_hex = hex of the
+           bytes getter; get_prev_tx_id(Some(true)) = reversed id; no satoshis / locking script on a parsed or
+           plainly built input; get_finalised_script = unlocking script; clone = self
+   output: get_script_pub_key_hex = hex of the script bytes; to_hex = hex(to_bytes); clone = self
+   tx:     to_hex = hex(to_bytes); from_hex (lower and upper case) = from_bytes; get_id_bytes = bytes of get_id_hex;
+           clone = self; get_input(nin) = get_output(nout) = None; satoshis_in() = None *)
+Definition in_flags : string := "111111".
+Definition out_flags : string := "111".
+(* sequence big-endian (get_sequence_as_bytes), get_unlocking_script_size, outpoint with None and with Some(true) *)
+Definition in_extra_impl (i : txin) : string :=
+  hex_of_bytes (u32_be_bytes (sequence i)) +++ "," +++ dec_of_N (txin_unlocking_script_size i) +++ ","
+  +++ hex_of_bytes (txin_outpoint i None) +++ "," +++ hex_of_bytes (txin_outpoint i (Some true)) +++ "," +++ in_flags.
+(* get_satoshis_as_bytes (big-endian), get_script_pub_key_size *)
+Definition out_extra_impl (o : txout) : string :=
+  hex_of_bytes (u64_be_bytes (value o)) +++ "," +++ dec_of_N (N.of_nat (length (to_bytes (script_pub_key o)))) +++ "," +++ out_flags.
 Definition show_in_impl (i : txin) : string :=
   hex_of_bytes (prev_tx_id i) +++ "," +++ dec_of_N (vout i) +++ "," +++ show_bytes (to_bytes (unlocking i)) +++ ","
-  +++ dec_of_N (sequence i) +++ "," +++ bit01 (is_coinbase_outpoint (prev_tx_id i) (vout i)) +++ "/".
+  +++ dec_of_N (sequence i) +++ "," +++ bit01 (is_coinbase_outpoint (prev_tx_id i) (vout i)) +++ ","
+  +++ in_extra_impl i +++ "/".
 Definition show_out_impl (o : txout) : string :=
-  dec_of_N (value o) +++ "," +++ show_bytes (to_bytes (script_pub_key o)) +++ "/".
+  dec_of_N (value o) +++ "," +++ show_bytes (to_bytes (script_pub_key o)) +++ "," +++ out_extra_impl o +++ "/".
 Definition show_sat (r : outcome N) : string :=
   match r with Ok n => dec_of_N n | Err => "ERR" | Panic => "PANIC" end.
 
@@ -35,13 +52,16 @@ Definition show_tx_impl (t : tx) (ib ih : bytes) : string :=
   +++ dec_of_N (N.of_nat (length (inputs t))) +++ ";" +++ dec_of_N (N.of_nat (length (outputs t))) +++ ";"
   +++ show_long (cat_map show_in_impl (inputs t)) +++ ";" +++ show_long (cat_map show_out_impl (outputs t)) +++ ";"
   +++ show_long (cat_map (fun o => hex_of_bytes o +++ "/") (tx_outpoints t)) +++ ";"
-  +++ show_sat (satoshis_out true t) +++ ";" +++ bit01 (tx_is_coinbase t).
+  +++ show_sat (satoshis_out true t) +++ ";" +++ bit01 (tx_is_coinbase t) +++ ";"
+  +++ hex_of_bytes (u32_be_bytes (locktime t)) +++ ";"
+  +++ "11111" +++ bit01 (match satoshis_in true t with Ok None => true | _ => false end).
 
 Definition show_txin_impl (i : txin) : string :=
   show_bytes (txin_bytes i) +++ ";" +++ hex_of_bytes (prev_tx_id i) +++ ";" +++ dec_of_N (vout i) +++ ";"
   +++ show_bytes (to_bytes (unlocking i)) +++ ";" +++ dec_of_N (sequence i) +++ ";"
   +++ bit01 (is_coinbase_outpoint (prev_tx_id i) (vout i)) +++ ";"
-  +++ hex_of_bytes (txin_outpoint_bytes i true) +++ ";" +++ hex_of_bytes (txin_outpoint_bytes i false).
+  +++ hex_of_bytes (txin_outpoint_bytes i true) +++ ";" +++ hex_of_bytes (txin_outpoint_bytes i false) +++ ";"
+  +++ hex_of_bytes (u32_be_bytes (sequence i)) +++ ";" +++ dec_of_N (txin_unlocking_script_size i) +++ ";" +++ in_flags.
 
 (* ------------------------------------------------------------------ *)
 (* specification side: which raw scripts are scripts (C02's independent tokenizer + balance automaton) *)
@@ -61,9 +81,12 @@ Definition fields_class (f : tx_fields) : sclass :=
 
 Definition show_in_spec (i : in_fields) : string :=
   hex_of_bytes (f_prev i) +++ "," +++ dec_of_N (f_vout i) +++ "," +++ show_bytes (f_script i) +++ ","
-  +++ dec_of_N (f_seq i) +++ "," +++ bit01 (null_outpoint i) +++ "/".
+  +++ dec_of_N (f_seq i) +++ "," +++ bit01 (null_outpoint i) +++ ","
+  +++ hex_of_bytes (be_bytes 4 (f_seq i)) +++ "," +++ dec_of_N (N.of_nat (length (f_script i))) +++ ","
+  +++ hex_of_bytes (f_prev i ++ le_bytes 4 (f_vout i)) +++ "," +++ hex_of_bytes (spec_outpoint i) +++ "," +++ in_flags +++ "/".
 Definition show_out_spec (o : out_fields) : string :=
-  dec_of_N (f_value o) +++ "," +++ show_bytes (f_pk o) +++ "/".
+  dec_of_N (f_value o) +++ "," +++ show_bytes (f_pk o) +++ ","
+  +++ hex_of_bytes (be_bytes 8 (f_value o)) +++ "," +++ dec_of_N (N.of_nat (length (f_pk o))) +++ "," +++ out_flags +++ "/".
 
 (* `h` is the double hash of `enc`, supplied by the caller so that it is computed once when the model's
    re-serialisation and the specified one are the same byte string *)
@@ -73,7 +96,8 @@ Definition show_tx_spec (enc : bytes) (h : bytes) (f : tx_fields) : string :=
   +++ dec_of_N (N.of_nat (length (f_ins f))) +++ ";" +++ dec_of_N (N.of_nat (length (f_outs f))) +++ ";"
   +++ show_long (cat_map show_in_spec (f_ins f)) +++ ";" +++ show_long (cat_map show_out_spec (f_outs f)) +++ ";"
   +++ show_long (cat_map (fun o => hex_of_bytes o +++ "/") (spec_outpoints f)) +++ ";"
-  +++ dec_of_N (spec_total_out f) +++ ";" +++ bit01 (spec_is_coinbase f).
+  +++ dec_of_N (spec_total_out f) +++ ";" +++ bit01 (spec_is_coinbase f) +++ ";"
+  +++ hex_of_bytes (be_bytes 4 (f_locktime f)) +++ ";" +++ "111111".
 
 Definition u64lim : N := 18446744073709551616%N.
 
@@ -87,7 +111,7 @@ Definition run_tx_parse (bs : bytes) : string :=
     | Err => "ERR" | Panic => "PANIC"
     end in
   match decode_tx_spec bs with
-  | None => out3 impl "-" "-"
+  | None => out3 impl "ERR" "-"     (* nothing an accepting library could report would be what the decoder reads *)
   | Some d =>
       let f := d_fields d in
       match fields_class f with
@@ -110,7 +134,7 @@ Definition run_txin_parse (bs : bytes) : string :=
               | Ok (i, _) => "OK:" +++ show_txin_impl i
               | Err => "ERR" | Panic => "PANIC" end in
   match decode_in bs with
-  | None => out3 impl "-" "-"
+  | None => out3 impl "ERR" "-"
   | Some (fi, m, rest) =>
       match in_class fi with
       | SBad => out3 impl "ERR" "-"
@@ -120,17 +144,19 @@ Definition run_txin_parse (bs : bytes) : string :=
           let enc := if can then bs else encode_in fi in
           out3 impl ((if can then "" else "ERR~") +++ "OK:" +++ show_bytes enc +++ ";" +++ hex_of_bytes (f_prev fi) +++ ";" +++ dec_of_N (f_vout fi) +++ ";"
                      +++ show_bytes (f_script fi) +++ ";" +++ dec_of_N (f_seq fi) +++ ";" +++ bit01 (null_outpoint fi) +++ ";"
-                     +++ hex_of_bytes (spec_outpoint fi) +++ ";" +++ hex_of_bytes (f_prev fi ++ le_bytes 4 (f_vout fi))) "-"
+                     +++ hex_of_bytes (spec_outpoint fi) +++ ";" +++ hex_of_bytes (f_prev fi ++ le_bytes 4 (f_vout fi)) +++ ";"
+                     +++ hex_of_bytes (be_bytes 4 (f_seq fi)) +++ ";" +++ dec_of_N (N.of_nat (length (f_script fi))) +++ ";" +++ in_flags) "-"
       end
   end.
 
 Definition run_txout_parse (bs : bytes) : string :=
   let impl := match txout_read bs with
               | Ok (o, _) => "OK:" +++ show_bytes (txout_bytes o) +++ ";" +++ dec_of_N (value o) +++ ";"
-                             +++ show_bytes (to_bytes (script_pub_key o))
+                             +++ show_bytes (to_bytes (script_pub_key o)) +++ ";" +++ hex_of_bytes (u64_be_bytes (value o)) +++ ";"
+                             +++ dec_of_N (N.of_nat (length (to_bytes (script_pub_key o)))) +++ ";" +++ out_flags
               | Err => "ERR" | Panic => "PANIC" end in
   match decode_out bs with
-  | None => out3 impl "-" "-"
+  | None => out3 impl "ERR" "-"
   | Some (fo, m, rest) =>
       match classify (f_pk fo) with
       | SBad => out3 impl "ERR" "-"
@@ -138,7 +164,8 @@ Definition run_txout_parse (bs : bytes) : string :=
       | SGood =>
           let can := m && match rest with [] => true | _ => false end in
           let enc := if can then bs else encode_out fo in
-          out3 impl ((if can then "" else "ERR~") +++ "OK:" +++ show_bytes enc +++ ";" +++ dec_of_N (f_value fo) +++ ";" +++ show_bytes (f_pk fo)) "-"
+          out3 impl ((if can then "" else "ERR~") +++ "OK:" +++ show_bytes enc +++ ";" +++ dec_of_N (f_value fo) +++ ";" +++ show_bytes (f_pk fo) +++ ";"
+                     +++ hex_of_bytes (be_bytes 8 (f_value fo)) +++ ";" +++ dec_of_N (N.of_nat (length (f_pk fo))) +++ ";" +++ out_flags) "-"
       end
   end.
 
@@ -149,8 +176,9 @@ Definition run_txin_outpoint (bs : bytes) : string :=
   if Nat.eqb (length bs) 36 then
     let fi := mk_in (rev (firstn 32 bs)) (le_val (skipn 32 bs)) [] 4294967295 in
     out3 impl ("OK:" +++ show_bytes (encode_in fi) +++ ";" +++ hex_of_bytes (f_prev fi) +++ ";" +++ dec_of_N (f_vout fi) +++ ";;4294967295;"
-               +++ bit01 (null_outpoint fi) +++ ";" +++ hex_of_bytes bs +++ ";" +++ hex_of_bytes (f_prev fi ++ skipn 32 bs)) "-"
-  else out3 impl "-" "-".
+               +++ bit01 (null_outpoint fi) +++ ";" +++ hex_of_bytes bs +++ ";" +++ hex_of_bytes (f_prev fi ++ skipn 32 bs)
+               +++ ";ffffffff;0;" +++ in_flags) "-"
+  else out3 impl "ERR" "-".      (* an outpoint is exactly 36 bytes *)
 
 (* ------------------------------------------------------------------ *)
 (* tx.build ver lt nin nout (id vout script seq|-)* (value script)* *)
@@ -268,10 +296,18 @@ Fixpoint build_ins_ext (t : tx) (l : list ext_in) : outcome tx :=
       build_ins_ext t1 r
   end.
 
+(* per input: to_bytes, get_unlocking_script_size, get_satoshis, get_locking_script_bytes *)
 Definition show_in_ext_impl (i : txin) : string :=
-  show_bytes (txin_bytes i) +++ "," +++ dec_of_N (txin_unlocking_script_size i) +++ "/".
-Definition show_in_ext_spec (i : in_fields) : string :=
-  show_bytes (encode_in i) +++ "," +++ dec_of_N (N.of_nat (length (f_script i))) +++ "/".
+  show_bytes (txin_bytes i) +++ "," +++ dec_of_N (txin_unlocking_script_size i) +++ ","
+  +++ match satoshis i with Some v => dec_of_N v | None => "-" end +++ ","
+  +++ match locking i with Some l => "s" +++ show_bytes (to_bytes l) | None => "-" end +++ "/".
+Definition show_in_ext_spec (e : ext_in) : string :=
+  show_bytes (encode_in (e_fields e)) +++ "," +++ dec_of_N (N.of_nat (length (f_script (e_fields e)))) +++ ","
+  +++ match e_sat e with Some v => dec_of_N v | None => "-" end +++ ","
+  +++ match e_lock e with Some l => "s" +++ show_bytes l | None => "-" end +++ "/".
+(* get_finalised_script (unlocking ++ locking re-parsed): tied, not specified by this property *)
+Definition show_fin_impl (i : txin) : string :=
+  match txin_finalised_script i with Ok s => show_bytes (to_bytes s) | Err => "E" | Panic => "P" end +++ "/".
 
 Definition run_tx_build_ext (args : list string) : string :=
   match args with
@@ -289,7 +325,8 @@ Definition run_tx_build_ext (args : list string) : string :=
                   let ih := match r with Ok _ => sha256d ib | _ => [] end in
                   let impl := match r with
                               | Ok t => "OK:" +++ show_bytes ib +++ ";" +++ hex_of_bytes (rev ih) +++ ";" +++ dec_of_N (tx_size t) +++ ";"
-                                        +++ show_long (cat_map show_in_ext_impl (inputs t))
+                                        +++ show_long (cat_map show_in_ext_impl (inputs t)) +++ ";"
+                                        +++ show_long (cat_map show_fin_impl (inputs t))
                               | Err => "ERR" | Panic => "PANIC" end in
                   (* the attached locking scripts must be scripts too; they are not part of the encoding *)
                   let lc := fold_right (fun e c => match e_lock e with Some lb => join_class (classify lb) c | None => c end) SGood ins in
@@ -299,7 +336,91 @@ Definition run_tx_build_ext (args : list string) : string :=
                   | SGood => let enc := encode_tx_spec f in
                              let h := if bytes_eqb enc ib then ih else sha256d enc in
                              out3 impl ("OK:" +++ show_bytes enc +++ ";" +++ hex_of_bytes (rev h) +++ ";" +++ dec_of_N (N.of_nat (length enc)) +++ ";"
-                                        +++ show_long (cat_map show_in_ext_spec (f_ins f))) "-"
+                                        +++ show_long (cat_map show_in_ext_spec ins) +++ ";*") "-"
+                  end
+              | _ => "BADARG"
+              end
+          | None => "BADARG"
+          end
+      | _, _, _, _ => "BADARG"
+      end
+  | _ => "BADARG"
+  end.
+
+(* ------------------------------------------------------------------ *)
+(* tx.build_alt variant ver lt nin nout (id vout script seq|-)* (value script)*
+   the other public routes to the same transaction; every variant must give the bytes of tx.build:
+     bulk     Transaction::new; add_inputs(vec); add_outputs(vec)
+     default  Transaction::default(); set_version; set_nlocktime (using the returned clones);
+              TxIn::default() + set_prev_tx_id / set_vout / set_unlocking_script / set_sequence
+     prepend  items added last-to-first with prepend_input / prepend_output
+     insert   all items but the second added, then insert_input(1, ..) / insert_output(1, ..)
+     set      placeholders added (TxIn::default(), TxOut::new(0, empty)), then set_input(k, ..) / set_output(k, ..)
+     clone    built as in tx.build, serialised from a clone *)
+Fixpoint mk_txins (l : list (in_fields * option N)) : outcome (list (bytes * N * list bit * option N)) :=
+  match l with
+  | [] => Ok []
+  | (i, sq) :: r =>
+      do scr <- (if is_coinbase_outpoint (f_prev i) (f_vout i) then Ok [BCoinbase (f_script i)] else from_bytes (f_script i));
+      do rest <- mk_txins r; Ok ((f_prev i, f_vout i, scr, sq) :: rest)
+  end.
+Fixpoint mk_txouts (l : list out_fields) : outcome (list txout) :=
+  match l with
+  | [] => Ok []
+  | o :: r => do scr <- from_bytes (f_pk o); do rest <- mk_txouts r; Ok (txout_new (f_value o) scr :: rest)
+  end.
+Definition new_in (a : bytes * N * list bit * option N) : txin := let '(id, vo, scr, sq) := a in txin_new id vo scr sq.
+Definition default_in (a : bytes * N * list bit * option N) : txin :=
+  let '(id, vo, scr, sq) := a in
+  let i := txin_set_unlocking_script (txin_set_vout (txin_set_prev_tx_id txin_default id) vo) scr in
+  match sq with Some v => txin_set_sequence i v | None => i end.
+Fixpoint fold_outcome {A B} (f : B -> A -> outcome B) (l : list A) (b : B) : outcome B :=
+  match l with [] => Ok b | x :: r => do b' <- f b x; fold_outcome f r b' end.
+Fixpoint set_all_in (t : tx) (k : nat) (l : list txin) : outcome tx :=
+  match l with [] => Ok t | x :: r => do t' <- tx_set_input t k x; set_all_in t' (S k) r end.
+Fixpoint set_all_out (t : tx) (k : nat) (l : list txout) : outcome tx :=
+  match l with [] => Ok t | x :: r => do t' <- tx_set_output t k x; set_all_out t' (S k) r end.
+
+Definition build_alt (variant : string) (ver lt : N) (ais : list (bytes * N * list bit * option N)) (tos : list txout) : outcome tx :=
+  let tis := map new_in ais in
+  if String.eqb variant "bulk" then Ok (add_outputs (add_inputs (tx_new ver lt) tis) tos)
+  else if String.eqb variant "default" then
+    Ok (fold_left add_output tos (fold_left add_input (map default_in ais) (tx_set_nlocktime (tx_set_version tx_default ver) lt)))
+  else if String.eqb variant "prepend" then
+    Ok (fold_left prepend_output (rev tos) (fold_left prepend_input (rev tis) (tx_new ver lt)))
+  else if String.eqb variant "insert" then
+    do t1 <- (match tis with
+              | a :: b :: r => insert_input (fold_left add_input (a :: r) (tx_new ver lt)) 1 b
+              | _ => Ok (fold_left add_input tis (tx_new ver lt)) end);
+    match tos with
+    | a :: b :: r => insert_output (fold_left add_output (a :: r) t1) 1 b
+    | _ => Ok (fold_left add_output tos t1)
+    end
+  else if String.eqb variant "set" then
+    let t0 := fold_left add_output (map (fun _ => txout_new 0 []) tos) (fold_left add_input (map (fun _ => txin_default) tis) (tx_new ver lt)) in
+    do t1 <- set_all_in t0 0 tis; set_all_out t1 0 tos
+  else if String.eqb variant "clone" then Ok (fold_left add_output tos (fold_left add_input tis (tx_new ver lt)))
+  else Err.
+
+Definition run_tx_build_alt (args : list string) : string :=
+  match args with
+  | v :: a :: b :: c :: d :: rest =>
+      match N_of_dec a, N_of_dec b, N_of_dec c, N_of_dec d with
+      | Some ver, Some lt, Some nin, Some nout =>
+          if (1000 <? nin)%N || (1000 <? nout)%N then "BADARG" else
+          match parse_ins (N.to_nat nin) rest with
+          | Some (ins, rest') =>
+              match parse_outs (N.to_nat nout) rest' with
+              | Some (outs, []) =>
+                  let f := mk_fields ver (map fst ins) outs lt in
+                  let impl := match (do ais <- mk_txins ins; do tos <- mk_txouts outs; build_alt v ver lt ais tos) with
+                              | Ok t => "OK:" +++ show_bytes (tx_bytes t) +++ ";" +++ dec_of_N (tx_size t)
+                              | Err => "ERR" | Panic => "PANIC" end in
+                  match fields_class f with
+                  | SBad => out3 impl "ERR" "-"
+                  | STrunc => out3 impl "ERR" "truncated-direct-push"
+                  | SGood => let enc := encode_tx_spec f in
+                             out3 impl ("OK:" +++ show_bytes enc +++ ";" +++ dec_of_N (N.of_nat (length enc))) "-"
                   end
               | _ => "BADARG"
               end
@@ -324,7 +445,7 @@ Definition run_varint_read (bs : bytes) : string :=
   match read_compact bs with
   | Some (n, _, r) => out3 impl ("OK:" +++ dec_of_N n +++ ";" +++ dec_of_N (N.of_nat (length bs - length r)) +++ ";"
                                  +++ dec_of_N n +++ ";" +++ dec_of_N n) "-"
-  | None => out3 impl "-" "-"
+  | None => out3 impl "ERR" "-"
   end.
 
 Definition with_bytes (a : string) (f : bytes -> string) : string :=
@@ -337,6 +458,7 @@ Definition run (op : string) (args : list string) : string :=
   | "tx.parse", [a] => with_bytes a run_tx_parse
   | "tx.build", _ => run_tx_build args
   | "tx.build_ext", _ => run_tx_build_ext args
+  | "tx.build_alt", _ => run_tx_build_alt args
   | "txin.parse", [a] => with_bytes a run_txin_parse
   | "txout.parse", [a] => with_bytes a run_txout_parse
   | "txin.outpoint", [a] => with_bytes a run_txin_outpoint
